@@ -581,7 +581,14 @@ def gen_inventory():
     STATUS["inventory"] = "ok"
 
 
-GENERATORS = [gen_deblock, gen_yuv, gen_tables, gen_inventory]
+def gen_kernels():
+    """kernels translated from Rust source by the expression translator (tools/rs2v_kernels.py)"""
+    sys.path.insert(0, HERE)
+    import rs2v_kernels
+    rs2v_kernels.gen_kernels(REPO, STATUS, write_if_changed)
+
+
+GENERATORS = [gen_deblock, gen_yuv, gen_tables, gen_inventory, gen_kernels]
 
 
 def main():
